@@ -28,27 +28,31 @@ CLAIMS = {
         design="5 C04"),
     "C05": dict(
         text="Decides the write side of memory safety, and the keeps-serving clause, structurally for the server's "
-             "packet-reachable code; read-side bounds are C12's subject, and bounded time / absence of other undefined "
-             "behaviour are not decided. Every store, memcpy/memset/strncpy/snprintf-class call, indexed store, table "
+             "packet-reachable code, and the loop/recursion part of the bounded-time clause; read-side bounds are C12's "
+             "subject, blocking system calls are not timed, and undefined behaviour other than out-of-bounds writes and "
+             "table indexing is not decided. Every store, memcpy/memset/strncpy/snprintf-class call, indexed store, table "
              "index by character, unsigned subtraction and capacity argument in the units the server links is put in "
              "one obligation class (M1 table index, M2 unsigned difference, M3 bounded copy, M3c stated capacity, M4 "
              "indexed store, M5 cursor writers with inductive loop invariants, M6 persistent lengths, M3r producers "
-             "return at most their capacity, M9 no exit reachable from a packet entry point) and discharged on every "
+             "return at most their capacity, M8 every loop has a ranking function and every call-graph cycle a decreasing "
+             "counter or a latch, M9 no exit reachable from a packet entry point) and discharged on every "
              "path by must-facts, linear bounds and extents of the destination objects; what a function cannot show "
              "locally becomes a requirement on each of its call sites. A short table of reviewed exceptions is keyed "
              "by function and construct, each with a machine-checked premise (mostly another rule of this framework). "
              "All inputs are covered because the obligations never mention packet contents, only lengths and extents.",
         technique="obligation-class memory-write analysis: path-sensitive must-facts and linear bounds against object "
                   "extents, call-site requirement propagation, inductive cursor/loop invariants (lockstep + Houdini), "
-                  "inductive field invariants, call-graph reachability",
+                  "inductive field invariants, linear ranking-function search per loop, call-graph reachability and cycles",
         design="5 C05"),
     "C06": dict(
         text="The same obligation classes as C05 over the units the client links (client.c, dns.c, read.c, encoding.c, "
              "the codecs, common.c): every write through the decode scratch buffers, the handshake reply buffers, the "
              "reassembly buffer and the name slot table is bounded by the extent of its object on every path; the "
              "slot-table read loop has its sentinel; capacity arguments never overstate the object behind the pointer; "
-             "return-value contracts of the reply readers are proven from their bodies. Read-side bounds are C12's "
-             "subject; bounded time and the 'ignored unless matching a recent query' clause are not decided here.",
+             "return-value contracts of the reply readers are proven from their bodies; every loop of the reply path has a "
+             "ranking function, the handshake wait loop handles one datagram or timer tick per cycle, and the one "
+             "call-graph cycle (send_query -> handshake_lazyoff) is cut by a latch. Read-side bounds are C12's subject; "
+             "the 'ignored unless matching a recent query' clause is not decided here.",
         technique="obligation-class memory-write analysis (as C05) over the client's link set, plus slot-table sentinel "
                   "rule shared with C09",
         design="5 C06"),
